@@ -460,6 +460,15 @@ static int set_global (hawk_rtx_t* rtx, int idx, hawk_nde_var_t* var, hawk_val_t
 			 * the top of this function is not the one to release below any more. */
 			old = HAWK_RTX_STACK_GBL(rtx, idx);
 
+			if (vtype != HAWK_VAL_INT)
+			{
+				/* NF is the number of fields. whatever has been assigned - an unset
+				 * variable, "3x", 2.7 - it holds that number as an integer. the
+				 * record code relies on this when it reads NF back. */
+				val = hawk_rtx_makeintval(rtx, lv);
+				if (HAWK_UNLIKELY(!val)) return -1;
+			}
+
 			/* for all other globals, it returns before this switch/case block is reached
 			 * if the same value is assigned. but NF change requires extra action to take
 			 * as coded before this switch/case block. */
@@ -4040,6 +4049,10 @@ static hawk_val_t* do_assignment_nonindexed (hawk_rtx_t* rtx, hawk_nde_var_t* va
 				ADJERR_LOC (rtx, &var->loc);
 				return HAWK_NULL;
 			}
+
+			/* the value of the assignment is what the variable holds now. it is not
+			 * always the value given: NF keeps the number of fields as an integer */
+			val = HAWK_RTX_STACK_GBL(rtx, var->id.idxa);
 			break;
 		}
 
